@@ -973,6 +973,32 @@ Proof.
       * exists (len_N pre). split; [exact Ef|]. unfold len_N. rewrite app_length. cbn [length]. lia.
 Qed.
 
+Lemma failed_create_chain_exact upper oem cs ss n now es ls ss' :
+  dir_scan ss 0 [] false = (es, ls, []) -> len_N ss < 134217728 -> length ss' = length ss ->
+  create_entry upper oem false (Chained cs) 0 ss n 0 None now false = (Err ENotEnoughSpace, ss') ->
+  (ss' = ss /\ dir_scan ss' 0 [] false = (es, ls, [])) \/
+  (ss' <> ss /\ dir_scan ss' 0 [] false = (es, ls, [DOrphanLfn (len_N ss)]) /\
+   exists a st p, check_for_existence upper oem ss n (Some false) = Ok (Fresh a) /\ stamp_create now = Ok st /\
+     1 < len_N (entry_run n (create_sfn_entry false a 0 None st)) /\
+     find_free_entries (Chained cs) ss (len_N (entry_run n (create_sfn_entry false a 0 None st))) = Ok p /\ p < len_N ss).
+Proof.
+  intros H0 Hb Hlen H. unfold create_entry, lift in H.
+  destruct (check_for_existence upper oem ss n (Some false)) as [[ev|a]| | |] eqn:C; try discriminate;
+    try (injection H as _ <-; left; split; [reflexivity|exact H0]).
+  destruct (stamp_create now) as [st| | |] eqn:ST; try discriminate; try (injection H as _ <-; left; split; [reflexivity|exact H0]).
+  destruct (write_entry (Chained cs) 0 ss n (create_sfn_entry false a 0 None st)) as [w ss1] eqn:W.
+  injection H as Hw <-. destruct w as [rg|x| |]; try discriminate. cbn [bind] in Hw. injection Hw as ->.
+  destruct (failed_write_chain_exact cs false ss n _ es ls ss1 H0 Hb W Hlen) as [X|(X1 & X2 & X3 & p & X4 & X5)]; [left; exact X|right].
+  split; [exact X1|]. split; [exact X2|]. exists a, st, p. repeat split; assumption.
+Qed.
+
+Lemma count_free_zero g im : count_free g im = 0 -> forall x, 2 <= x < g_clusters g + 2 -> fat_val g im x <> FFree.
+Proof.
+  intros H x R E. rewrite count_free_cnt in H.
+  pose proof (cnt_pos (fun y => fatv_of (fat_val g im y)) x (N.to_nat (g_clusters g)) 2 ltac:(lia)) as P.
+  cbv beta in P. rewrite E in P. specialize (P eq_refl). lia.
+Qed.
+
 (* ================================================================ 5. create_file with growth *)
 Section GrowThm.
 Variable upper : N -> list N.
@@ -1208,5 +1234,107 @@ Proof.
   unfold lfns_ok in *. rewrite Ech in Hok. rewrite !map_app in *. cbn [map node_entry]. apply Forall_app in Hok. destruct Hok as [O1 O2].
   apply Forall_app. split; [exact O1|]. constructor; [|exact O2].
   rewrite X3. destruct (is_dot_name name); [reflexivity|apply utf16_okb_encode; exact Hv].
+Qed.
+
+(* THE KNOWN CLASS AS A THEOREM ("nospace-during-entry-write").  The same volume, NO cluster free; create_file answers NotEnoughSpace.
+   Chain, FS-info latch, every FAT entry, the free count and every byte outside the directory's own clusters are as before; the
+   decoder finds every node of the volume as before; the ONLY finding of Spec/Wf.v afterwards is the issue list of that
+   directory: nothing - then no byte of the device changed - or exactly ONE orphan long-name run at the end of the directory -
+   then the device did change: the existence check had passed, the name needs long-name slots and the free tail of the last
+   cluster took a prefix of them. *)
+Theorem vol_grow_nospace_residue im fi l name now im' fi' l' ra ed children labels rb :
+  let g := parse_geom im in
+  chain_geom g -> FatProofs.bytes_ok im -> fi_inv fstore (val_ft (ft_of g)) (store_of g im) fi (g_clusters g) ->
+  Wf.wf_issues fold im = [] -> v_root (abs im) = ra ++ NDir ed (Some l) children [] labels :: rb ->
+  chain_small g l -> TimeProofs.datetime_valid now = true ->
+  count_free g im = 0 ->
+  vol_create_file_grow upper oem im fi l name now = (Err ENotEnoughSpace, (im', fi', l')) ->
+  l' = l /\ fi' = fi /\
+  (forall a, (forall c, In c l -> ~ in_cluster g c a) -> img_get im' a = img_get im a) /\
+  (forall x, 2 <= x < g_clusters g + 2 -> fat_val g im' x = fat_val g im x) /\ count_free g im' = 0 /\
+  (forall c, 2 <= c < g_clusters g + 2 -> ~ In c l -> cluster_bytes g im' c = cluster_bytes g im c) /\
+  parse_geom im' = g /\ FatProofs.bytes_ok im' /\ fi_inv fstore (val_ft (ft_of g)) (store_of g im') fi (g_clusters g) /\
+  exists iss',
+    v_root (abs im') = ra ++ NDir ed (Some l) children iss' labels :: rb /\
+    v_root_issues (abs im') = [] /\ v_labels (abs im') = v_labels (abs im) /\
+    v_geom (abs im') = v_geom (abs im) /\ v_status (abs im') = v_status (abs im) /\
+    Wf.wf_issues fold im' = map (Wf.dir_issue (e_cluster ed)) iss' /\
+    ((iss' = [] /\ forall o, img_get im' o = img_get im o) \/
+     (iss' = [DOrphanLfn (N.of_nat (cluster_slots g * length l))] /\ ~ (forall o, img_get im' o = img_get im o) /\
+      exists a st p, check_for_existence upper oem (chain_dir_slots g im l) name (Some false) = Ok (Fresh a) /\ stamp_create now = Ok st /\
+        1 < len_N (entry_run name (create_sfn_entry false a 0 None st)) /\
+        find_free_entries (Chained (cluster_slots g)) (chain_dir_slots g im l) (len_N (entry_run name (create_sfn_entry false a 0 None st))) = Ok p /\
+        p < N.of_nat (cluster_slots g * length l))).
+Proof.
+  intros g Hg Hb Hfi Hwf Hroot Hsm Hnow Hfull H.
+  destruct (grow_premises im fi l ra ed children labels rb Hg Hb Hfi Hwf Hroot) as [HI (es & ls & ea & eb & ces & DF)]. fold g in HI.
+  destruct (grow_create_unfold upper oem im fi l name now _ im' fi' l' Hg HI Hsm Hnow H) as (news & GS & CE & _). fold g in CE.
+  destruct GS as (E1 & HI' & Nn & Hfree & Hfat & Hfr & Hfr0 & Hcnt). fold g in E1, HI', Hfree, Hfat, Hfr, Hfr0, Hcnt.
+  assert (news = []) as ->.
+  { destruct news as [|x r]; [reflexivity|]. exfalso. destruct (Hfree x (or_introl eq_refl)) as [R F].
+    exact (count_free_zero g im Hfull x R F). }
+  rewrite app_nil_r in E1. subst l'. destruct (Hfr0 eq_refl) as [-> Hframe]. cbn [length N.of_nat] in Hcnt, CE.
+  destruct HI' as [Hb' Hfi' Hck' Hlk'].
+  pose proof (df_cscan _ _ _ _ _ _ _ _ _ _ _ _ _ DF) as Sc. fold g in Sc.
+  pose proof (df_children _ _ _ _ _ _ _ _ _ _ _ _ _ DF) as Ech. fold g in Ech.
+  destruct (chain_dir_shape g im l Hg) as [[Lss Sss] _]. destruct (chain_dir_shape g im' l Hg) as [[Lss' _] _].
+  assert (len_N (chain_dir_slots g im l) = N.of_nat (cluster_slots g * length l)) as Elen by (unfold len_N; rewrite Lss; reflexivity).
+  assert (forall x, 2 <= x < g_clusters g + 2 -> fat_val g im' x = fat_val g im x) as Hfat'
+    by (intros x R; apply Hfat; [exact R|intros []|left; reflexivity]).
+  split; [reflexivity|]. split; [reflexivity|]. split; [exact Hframe|]. split; [exact Hfat'|]. split; [lia|].
+  split.
+  { intros c Rc Hn. unfold cluster_bytes. apply VolDirProofs.img_read_ext. intros i Hi. apply Hframe.
+    intros c' Hc' Hin. destruct Hck' as [_ Hr]. rewrite Forall_forall in Hr. specialize (Hr c' Hc').
+    apply (clusters_disjoint g c' c (g_cluster_off g c + N.of_nat i)); [lia|lia|intros ->; contradiction|exact Hin|unfold in_cluster; lia]. }
+  split.
+  { apply parse_geom_low. intros o Ho. apply Hframe. intros c _. apply (root_not_cluster g c o (proj1 Hg)).
+    pose proof (root_off_ge g (proj1 Hg)). lia. }
+  split; [exact Hb'|]. split; [exact Hfi'|].
+  (* the directory's slots afterwards *)
+  destruct (failed_create_chain_exact upper oem _ _ name now ces labels _ Sc (chain_len_bound g im l Hg Hsm) ltac:(rewrite Lss', Lss; reflexivity) CE)
+    as [[Ess Hscan']|(Nss & Hscan' & Hwhy)].
+  - (* nothing was written *)
+    assert (forall o, img_get im' o = img_get im o) as Hsame.
+    { intros o. destruct (in_cluster_list_dec g o l) as [(c & Hc & Hin)|Hout]; [|exact (Hframe o Hout)].
+      destruct (In_nth l c 0 Hc) as (i & Hi & <-).
+      pose proof (cluster_size_slots g Hg) as Hcs. unfold in_cluster in Hin.
+      assert (exists s0 j, (s0 < cluster_slots g)%nat /\ (j < 32)%nat /\ o = g_cluster_off g (nth i l 0) + N.of_nat (32 * s0 + j))
+        as (s0 & j & Hk & Hm & ->).
+      { set (d := N.to_nat (o - g_cluster_off g (nth i l 0))).
+        assert (d < 32 * cluster_slots g)%nat as Hd by (unfold d; lia).
+        pose proof (Nat.div_mod d 32 ltac:(lia)) as Hdm. pose proof (Nat.mod_upper_bound d 32 ltac:(lia)) as Hm.
+        exists (d / 32)%nat, (d mod 32)%nat. split; [apply Nat.div_lt_upper_bound; lia|]. split; [exact Hm|].
+        rewrite <- Hdm. unfold d. lia. }
+      rewrite <- (chain_slot_bytes g im' l i _ _ Hg Hi Hk Hm), <- (chain_slot_bytes g im l i _ _ Hg Hi Hk Hm), Ess. reflexivity. }
+    exists []. rewrite <- Ess in Sc.
+    destruct (bridge_abs fold im im' ra ed l children labels rb es ls ea eb ces Hg DF [] ltac:(intros x []) ltac:(intros x R _ _; exact (Hfat' x R))
+                ltac:(rewrite app_nil_r; intros a _ Hnc; exact (Hframe a Hnc)) ltac:(rewrite app_nil_r; exact Hlk') ltac:(rewrite app_nil_r; exact Hck')
+                ces labels [] ltac:(rewrite app_nil_r; exact Hscan') ltac:(intros e He; left; exact He)) as (Habs' & Hroot' & Hstat).
+    fold g in Habs', Hroot', Hstat. rewrite app_nil_r in Hroot'. rewrite <- Ech in Hroot'.
+    split; [rewrite Habs'; cbn [abs_fixed v_root]; exact Hroot'|].
+    rewrite Habs', (df_abs _ _ _ _ _ _ _ _ _ _ _ _ _ DF). fold g. cbn [abs_fixed v_root_issues v_labels v_geom v_status].
+    split; [reflexivity|]. split; [reflexivity|]. split; [reflexivity|]. split; [exact Hstat|].
+    split; [|left; split; [reflexivity|exact Hsame]].
+    destruct (img_same_abs fold im im' (proj1 Hg) Hsame) as (_ & _ & X & _). rewrite X. exact Hwf.
+  - (* a prefix of the long-name run stayed *)
+    exists [DOrphanLfn (N.of_nat (cluster_slots g * length l))]. rewrite Elen in Hscan'.
+    destruct (bridge_abs fold im im' ra ed l children labels rb es ls ea eb ces Hg DF [] ltac:(intros x []) ltac:(intros x R _ _; exact (Hfat' x R))
+                ltac:(rewrite app_nil_r; intros a _ Hnc; exact (Hframe a Hnc)) ltac:(rewrite app_nil_r; exact Hlk') ltac:(rewrite app_nil_r; exact Hck')
+                ces labels _ ltac:(rewrite app_nil_r; exact Hscan') ltac:(intros e He; left; exact He)) as (Habs' & Hroot' & Hstat).
+    fold g in Habs', Hroot', Hstat. rewrite app_nil_r in Hroot'. rewrite <- Ech in Hroot'.
+    split; [rewrite Habs'; cbn [abs_fixed v_root]; exact Hroot'|].
+    rewrite Habs', (df_abs _ _ _ _ _ _ _ _ _ _ _ _ _ DF). fold g. cbn [abs_fixed v_root_issues v_labels v_geom v_status].
+    split; [reflexivity|]. split; [reflexivity|]. split; [reflexivity|]. split; [exact Hstat|].
+    pose proof (df_id _ _ _ _ _ _ _ _ _ _ _ _ _ DF) as Wd. fold g in Wd.
+    rewrite (node_issues_dir fold g 0 ed l children [] labels (df_cl _ _ _ _ _ _ _ _ _ _ _ _ _ DF)) in Wd. cbn [map app] in Wd.
+    apply app_eq_nil in Wd. destruct Wd as [Wdot Wd]. apply app_eq_nil in Wd. destruct Wd as [Wnames Wsub].
+    split.
+    { apply (bridge_wf fold im im' ra ed l children labels rb es ls ea eb ces Hg DF [] ltac:(constructor) ltac:(intros x []) ltac:(intros x R _ _; exact (Hfat' x R))
+                ltac:(rewrite app_nil_r; intros a _ Hnc; exact (Hframe a Hnc)) ltac:(rewrite app_nil_r; exact Hlk') ltac:(rewrite app_nil_r; exact Hck')
+                ces labels _ ltac:(rewrite app_nil_r; exact Hscan') ltac:(intros e He; left; exact He));
+        fold g; rewrite <- Ech; try assumption; reflexivity. }
+    right. split; [reflexivity|]. split.
+    + intros Hsame. apply Nss. apply chain_dir_slots_ext. exact Hsame.
+    + destruct Hwhy as (a & st & p & Y1 & Y2 & Y3 & Y4 & Y5). exists a, st, p. rewrite Elen in Y5. repeat split; assumption.
 Qed.
 End GrowMain.
